@@ -412,6 +412,18 @@ def run_case(case):
                     want2["crc"] = crc2
                     md2["cktype"] = {"null": "NULL_CHECKSUM", "modular": "MODULAR", "crc32": "CRC_32", "crc32c": "CRC_32C"}[cks_kind]
                     obs2["second_stream_after_mib_change"] = 1
+                if c["req_mode"] is None and c["req_closure"] is None and not c["metadata_only"] and "base_data" not in second_box:
+                    # mode and closure were left to the MIB: the user flips both defaults of this destination and hands the *same* PutRequest
+                    # object in again; the second stream follows the configuration as it is now
+                    from ..world import MODES
+
+                    now_unack = not want_hdr["unack"]
+                    w.rc_dst_at_src.default_transmission_mode = MODES["unack" if now_unack else "ack"]
+                    w.rc_dst_at_src.closure_requested = not md_want["closure"]
+                    want2["unack"] = now_unack
+                    md2["closure"] = not md_want["closure"]
+                    w.reuse_last_request = True
+                    obs2["second_stream_with_same_request_object_after_mib_flip"] = 1
                 second_box["params"] = (data2, want2, md2, eff2, models.checksum(cks_kind, data2).hex())
 
             def put_second_early():
@@ -497,4 +509,4 @@ def run_case(case):
 
 
 REQUIRED = {"metadata_checked": 100, "eof_checked": 100, "empty_file_eof_checked": 5, "ack_finished_checked": 20, "full_segments": 200,
-            "fd_pdu_exactly_max_packet_len": 20, "large_file_cases": 4, "large_flag_boundary_cases": 8, "mixed_id_width": 20, "request_contradicts_mib": 20, "eof_resends_checked": 100, "second_streams_on_same_sender": 100, "second_stream_after_mib_change": 30, "refused_put_requests_during_stream": 100, "next_put_request_before_last_pdus_were_retrieved": 50, "file_stream_after_metadata_only_request": 10}
+            "fd_pdu_exactly_max_packet_len": 20, "large_file_cases": 4, "large_flag_boundary_cases": 8, "mixed_id_width": 20, "request_contradicts_mib": 20, "eof_resends_checked": 100, "second_streams_on_same_sender": 100, "second_stream_after_mib_change": 30, "refused_put_requests_during_stream": 100, "next_put_request_before_last_pdus_were_retrieved": 50, "second_stream_with_same_request_object_after_mib_flip": 100, "file_stream_after_metadata_only_request": 10}
